@@ -7,6 +7,7 @@ import (
 	"io/ioutil"
 	"log"
 	"math/rand"
+	"path"
 	"regexp"
 	"sort"
 	"strings"
@@ -97,7 +98,11 @@ func runOne(seed int64, mode string) (msg string) {
 	rng := rand.New(rand.NewSource(seed))
 	st := memory.NewStorage()
 	repo, _ := git.Init(st, nil)
-	paths := []string{"a.go", "b.py", "vendor/x.go", "dir/c.go", "dir/sub/d.txt", "dir/e.h", "f.h", "sm", "dir/sm2", "g.txt"}
+	paths := []string{"a.go", "b.py", "vendor/x.go", "dir/c.go", "dir/sub/d.txt", "dir/e.h", "f.h", "sm", "dir/sm2", "g.txt", "dir/sm3", "lib/sm"}
+	// submodule paths; with FailOnMissingSubmodules, sm and dir/sm3 are listed in .gitmodules, dir/sm2 and lib/sm are not
+	// (lib/sm has the base name of a listed one)
+	isSub := map[string]bool{"sm": true, "dir/sm2": true, "dir/sm3": true, "lib/sm": true}
+	unlisted := map[string]bool{"dir/sm2": true, "lib/sm": true}
 	contents := []string{"package main\n", "import os\n", "#include <stdio.h>\nint main(){}\n", "@interface Foo\n@end\n", "class A {};\n", "hello\n", "x\ny\n", ""}
 	files := map[string]fent{}
 	td := &items.TreeDiff{}
@@ -110,17 +115,27 @@ func runOne(seed int64, mode string) (msg string) {
 		td.NameFilter = regexp.MustCompile([]string{`\.(go|h)$`, `\.(go|h)$`, `^(a\.go)?$`, `^$`, `^(dir/.*)?$`}[rng.Intn(5)])
 	case "lang", "lang-sub0":
 		td.Languages = map[string]bool{"c": true, "go": true}
+		if rng.Intn(2) == 0 {
+			// the same selection made through Configure, on an object that was configured differently before: the last
+			// configuration is the one in force
+			td.Languages = nil
+			first := [][]string{{"all"}, {"python"}, {"python", "c"}}[rng.Intn(3)]
+			td.Configure(map[string]interface{}{items.ConfigTreeDiffLanguages: first})
+			td.Configure(map[string]interface{}{items.ConfigTreeDiffLanguages: []string{" C", "go "}})
+		}
 	}
 	// FailOnMissingSubmodules: a submodule entry is a placeholder only if .gitmodules lists it; an unlisted one is an error
 	strict := mode == "none" && rng.Intn(4) == 0
 	if strict {
 		bc.FailOnMissingSubmodules = true
-		files[".gitmodules"] = fent{data: []byte("[submodule \"sm\"]\n\tpath = sm\n\turl = https://example.com/sm\n"), mode: filemode.Regular}
+		files[".gitmodules"] = fent{data: []byte("[submodule \"sm\"]\n\tpath = sm\n\turl = https://example.com/sm\n" +
+			"[submodule \"dir/sm3\"]\n\tpath = dir/sm3\n\turl = https://example.com/sm3\n"), mode: filemode.Regular}
 	}
 	td.Initialize(repo)
 	bc.Initialize(repo)
 	base := time.Date(2020, 1, 1, 0, 0, 0, 0, time.UTC)
 	var prev plumbing.Hash
+	subSeen := false
 	seenSet := map[string]string{} // downstream view: path -> hash
 	for c := 0; c < 8; c++ {
 		for k := 0; k < 1+rng.Intn(4); k++ {
@@ -138,7 +153,7 @@ func runOne(seed int64, mode string) (msg string) {
 					files[p] = f
 				}
 			default:
-				if (strings.HasPrefix(p, "sm") || strings.HasSuffix(p, "sm2")) && (c > 0 || strings.HasSuffix(mode, "sub0")) {
+				if isSub[p] && (c > 0 || strings.HasSuffix(mode, "sub0")) {
 					h := make([]byte, 20)
 					rng.Read(h)
 					files[p] = fent{data: h, sub: true}
@@ -181,10 +196,10 @@ func runOne(seed int64, mode string) (msg string) {
 		if strict {
 			mustErr, mayErr := false, false
 			for _, ch := range changes {
-				if ch.To.Name == "dir/sm2" && ch.To.TreeEntry.Mode == filemode.Submodule {
+				if unlisted[ch.To.Name] && ch.To.TreeEntry.Mode == filemode.Submodule {
 					mustErr, mayErr = true, true
 				}
-				if ch.From.Name == "dir/sm2" && ch.From.TreeEntry.Mode == filemode.Submodule {
+				if unlisted[ch.From.Name] && ch.From.TreeEntry.Mode == filemode.Submodule {
 					mayErr = true
 				}
 			}
@@ -195,7 +210,7 @@ func runOne(seed int64, mode string) (msg string) {
 				return "" // refused as configured: the run stops here
 			}
 			if mustErr {
-				return fmt.Sprintf("c%d: the submodule dir/sm2 is not listed in .gitmodules, FailOnMissingSubmodules is set, and BlobCache accepted it", c)
+				return fmt.Sprintf("c%d: a submodule that is not listed in .gitmodules (dir/sm2 or lib/sm) was added, FailOnMissingSubmodules is set, and BlobCache accepted it", c)
 			}
 		}
 		if err != nil {
@@ -261,13 +276,30 @@ func runOne(seed int64, mode string) (msg string) {
 				}
 			case "regex":
 				pass = td.NameFilter.MatchString(name)
+			case "lang", "lang-sub0":
+				if f := files[name]; f.sub {
+					subSeen = true
+				} else {
+					head := f.data
+					if len(head) > 1024 {
+						head = head[:1024]
+					}
+					l := strings.ToLower(enry.GetLanguage(path.Base(name), head))
+					pass = l == "c" || l == "go"
+				}
 			}
 			if pass {
 				want[name] = entry.Hash.String()
 			}
 		}
 		walker.Close()
-		if !strings.HasPrefix(mode, "lang") {
+		if strings.HasPrefix(mode, "lang") {
+			// the language selection (C and Go) decides by the content a path has now; paths with one passing and one
+			// failing version are the known finding D10, and submodule entries have no content to look at
+			if !langFlip && !subSeen && fmt.Sprint(want) != fmt.Sprint(seenSet) {
+				return fmt.Sprintf("c%d SET mismatch under the language selection {c, go}: want %v got %v", c, want, seenSet)
+			}
+		} else {
 			// submodules are not listed on the first commit (Files() iterator) - note it
 			if fmt.Sprint(want) != fmt.Sprint(seenSet) {
 				return fmt.Sprintf("c%d SET mismatch want %v got %v", c, want, seenSet)
